@@ -14,7 +14,7 @@ for name in sorted(os.listdir('/verif/seeded')):
     prop = meta['property']
     r = sh('git -C /repo apply --check %s/patch.diff' % d)
     if r.returncode:
-        rows.append((name, prop, 'PATCH-NO-LONGER-APPLIES', '', meta.get('summary', '')[:110])); continue
+        rows.append((name, prop, 'PATCH-NO-LONGER-APPLIES', '', meta.get('summary', '')[:110])); print(name, prop, 'PATCH-NO-LONGER-APPLIES (rebase it)', flush=True); continue
     sh('git -C /repo apply %s/patch.diff' % d)
     try:
         r = sh('./check %s --tier quick' % prop, cwd='/verif')
